@@ -102,6 +102,12 @@ func (cfg *Config) VerifyConfig(schema base.LogSchema) error {
 	if len(cfg.Serialization.EnvironmentFields) == 0 {
 		return fmt.Errorf(".serialization.environmentFields is unspecified")
 	}
+	if _, err := schema.CreateFieldLocators(cfg.Serialization.EnvironmentFields); err != nil {
+		return fmt.Errorf(".serialization.environmentFields%w", err)
+	}
+	if _, err := schema.CreateFieldLocators(cfg.Serialization.HiddenFields); err != nil {
+		return fmt.Errorf(".serialization.hiddenFields%w", err)
+	}
 
 	for field, rewriteConfig := range cfg.Serialization.RewriteFields {
 		if _, err := schema.CreateFieldLocator(field); err != nil {
